@@ -8,7 +8,7 @@ arguments receive a post-state (vflow.default_call).
 """
 from . import terms as T
 from .vflow import Ref, Clos, Tup, Seq, Place, index_term, mk_comp, keyrepr, field_term
-from .facts import strip_generics
+from .facts import strip_generics, callee_key
 
 TABLE = {}
 CLASS = {}     # key -> class name (for evidence: the trusted entries actually used)
